@@ -1428,6 +1428,7 @@ func lastResValue(f string) reflect.Value { return reflect.Value{} }
 
 //@ func toString
 //@   props C05 C09
+//@   opt reflectpanics checked
 //@   opt track valueOf
 //@   requires env != nil
 //@   ensures[C09] specShowableKind(lastResValue("valueOf").Kind()) ==> result1 == nil
@@ -1438,6 +1439,7 @@ func lastResValue(f string) reflect.Value { return reflect.Value{} }
 
 //@ func showInText
 //@   props C05 C13
+//@   opt reflectpanics checked
 //@   opt writerprop C13
 //@   requires env != nil && !wfailed(out)
 //@   ensures[C13] wfailed(out) ==> result != nil && result == werr(out)
@@ -1471,6 +1473,7 @@ func specIsBytes(v any) bool { _, ok := v.([]byte); return ok }
 
 //@ func showInHTML
 //@   props C05 C13 C06 C09
+//@   opt reflectpanics checked
 //@   opt writerprop C13
 //@   opt track htmlEscape toString
 //@   requires env != nil && !wfailed(out)
@@ -1482,6 +1485,7 @@ func specIsBytes(v any) bool { _, ok := v.([]byte); return ok }
 
 //@ func showInTag
 //@   props C05 C13
+//@   opt reflectpanics checked
 //@   opt writerprop C13
 //@   requires env != nil && !wfailed(out)
 //@   ensures[C13] wfailed(out) ==> result != nil && result == werr(out)
@@ -1499,6 +1503,7 @@ func specTrustedInAttr(v any) bool {
 
 //@ func showInAttribute
 //@   props C05 C13 C06 C09
+//@   opt reflectpanics checked
 //@   opt writerprop C13
 //@   opt track attributeEscape toString
 //@   requires env != nil && !wfailed(out)
@@ -1512,6 +1517,7 @@ func specTrustedInAttr(v any) bool {
 
 //@ func showInCSS
 //@   props C05 C13
+//@   opt reflectpanics checked
 //@   opt writerprop C13
 //@   requires env != nil && !wfailed(out)
 //@   ensures[C13] wfailed(out) ==> result != nil && result == werr(out)
@@ -1523,6 +1529,7 @@ func specTrustedInAttr(v any) bool {
 //@ func showInCSSString
 //@   props C05 C13 C06
 //@   opt writerprop C13
+//@   opt reflectpanics checked
 //@   opt track cssStringEscape escapeBytes
 //@   requires env != nil && !wfailed(out)
 //@   ensures[C13] wfailed(out) ==> result != nil && result == werr(out)
@@ -1532,6 +1539,7 @@ func specTrustedInAttr(v any) bool {
 // JavaScript and JSON string literals: no type is trusted.
 //@ func showInJSString
 //@   props C05 C13 C06 C09
+//@   opt reflectpanics checked
 //@   opt writerprop C13
 //@   opt track jsStringEscape toString
 //@   requires env != nil && !wfailed(out)
@@ -1542,6 +1550,7 @@ func specTrustedInAttr(v any) bool {
 
 //@ func showInJSONString
 //@   props C05 C13
+//@   opt reflectpanics checked
 //@   opt writerprop C13
 //@   requires env != nil && !wfailed(out)
 //@   ensures[C13] wfailed(out) ==> result != nil && result == werr(out)
@@ -1559,6 +1568,7 @@ func specTrustedInMarkdown(v any) bool {
 
 //@ func showInMarkdown
 //@   props C05 C13 C06 C26
+//@   opt reflectpanics checked
 //@   opt writerprop C13
 //@   opt track markdownEscape
 //@   requires env != nil && !wfailed(out)
@@ -1568,6 +1578,7 @@ func specTrustedInMarkdown(v any) bool {
 
 //@ func showInMarkdownCodeBlock
 //@   props C05 C13 C06 C26 C09
+//@   opt reflectpanics checked
 //@   opt writerprop C13
 //@   opt track markdownCodeBlockEscape toString
 //@   requires env != nil && !wfailed(out)
